@@ -2144,7 +2144,12 @@ func (h *fsmHandler) established(ctx context.Context) (bgp.FSMState, *fsmStateRe
 			if !s.Enabled {
 				return bgp.BGP_FSM_IDLE, newfsmStateReason(fsmHoldTimerExpired, m, nil)
 			} else if err != nil {
-				return bgp.BGP_FSM_IDLE, newfsmStateReason(fsmWriteFailed, nil, nil)
+				// the NOTIFICATION could not be written (the path to the peer is
+				// dead): still a loss that graceful restart covers, so take the
+				// same way as the reader's and writer's errors instead of
+				// returning from here, which skipped the graceful-restart handling
+				reasonCh <- *newfsmStateReason(fsmWriteFailed, nil, nil)
+				continue
 			}
 			reasonCh <- *newfsmStateReason(fsmNotificationSent, m, nil)
 		case <-holdtimerResetCh:
